@@ -281,6 +281,113 @@ def runE (r : Region) : List Op → Except Err Region
 def combineRegions (c : Container) : Except Err Region :=
   runE (empty c.maxdepth) (combineOps c)
 
+/-! ### the same model with its arithmetic leaves and loop ranges as parameters
+
+  `Leaves` collects every expression and loop range of `regions.py` that the translator regenerates
+  (`Gen.C08.*`, see `Model/C08Gen.lean`); the functions below are the fixed hand-written glue around them.
+  `Proofs/C08Leaves.lean` proves `stepL canon = step`, so every theorem about `step` is a theorem about the
+  glue instantiated with leaves that meet their obligations (`Properties.C08.gen_leaves_canon`). -/
+
+structure Leaves where
+  children : Nat → List Nat
+  parent : Nat → Nat
+  quadHead : Nat → Bool
+  degrade : Nat → Nat → Nat → Nat
+  demoteLevels : Nat → List Nat
+  renormLevels : Nat → List Nat
+  unionShared : Nat → Nat → List Nat
+  unionFiner : Nat → Nat → List Nat
+  finer : Nat → Nat → Bool
+  areaLevels : Nat → List Nat
+  sameDepthW : Nat → Nat → Bool
+  sameDepthI : Nat → Nat → Bool
+  sameDepthX : Nat → Nat → Bool
+
+def demoteStepL (L : Leaves) (pd : Nat → List Nat) (d : Nat) : Nat → List Nat :=
+  setLevel (setLevel pd (d + 1) (dedup (pd (d + 1) ++ (pd d).flatMap L.children))) d []
+
+def demoteAllL (L : Leaves) (r : Region) : Region :=
+  if cacheEmpty r then { r with pd := (L.demoteLevels r.m).foldl (demoteStepL L) r.pd, cached := true } else r
+
+def promotedL (L : Leaves) (l : List Nat) : List Nat :=
+  (l.filter (fun p => L.quadHead p && complete l p)).map L.parent
+
+def renormStepL (L : Leaves) (pd : Nat → List Nat) (d : Nat) : Nat → List Nat :=
+  setLevel (setLevel pd d ((pd d).filter (fun x => !complete (pd d) x)))
+    (d - 1) (dedup (pd (d - 1) ++ promotedL L (pd d)))
+
+def renormL (L : Leaves) (r : Region) : Region :=
+  let r1 := demoteAllL L { r with cached := false }
+  { r1 with pd := (L.renormLevels r.m).foldl (renormStepL L) r1.pd, cached := false }
+
+/-- evaluation only: a fold that tabulates the dictionary after every iteration (see `demoteLoopFast`) -/
+def foldTab (m : Nat) (stepf : (Nat → List Nat) → Nat → Nat → List Nat) : (Nat → List Nat) → List Nat → Nat → List Nat
+  | pd, [] => pd
+  | pd, d :: ds => foldTab m stepf (lookupFn ((List.range (m + 1)).map (stepf pd d)) (stepf pd d)) ds
+
+theorem foldTab_eq (m : Nat) (stepf : (Nat → List Nat) → Nat → Nat → List Nat) :
+    ∀ (ds : List Nat) (pd : Nat → List Nat), foldTab m stepf pd ds = ds.foldl stepf pd
+  | [], _ => rfl
+  | d :: ds, pd => by
+    simp only [foldTab, lookupFn_tab, List.foldl_cons]
+    exact foldTab_eq m stepf ds (stepf pd d)
+
+def demoteAllLFast (L : Leaves) (r : Region) : Region :=
+  if cacheEmpty r then
+    { r with pd := lookupFn ((List.range (r.m + 1)).map (foldTab r.m (demoteStepL L) r.pd (L.demoteLevels r.m)))
+                     (foldTab r.m (demoteStepL L) r.pd (L.demoteLevels r.m)), cached := true }
+  else r
+
+@[csimp] theorem demoteAllL_eq_fast : @demoteAllL = @demoteAllLFast := by
+  funext L r
+  simp only [demoteAllL, demoteAllLFast, lookupFn_tab, foldTab_eq]
+
+def renormLFast (L : Leaves) (r : Region) : Region :=
+  let r1 := demoteAllL L { r with cached := false }
+  { r1 with pd := lookupFn ((List.range (r.m + 1)).map (foldTab r.m (renormStepL L) r1.pd (L.renormLevels r.m)))
+                    (foldTab r.m (renormStepL L) r1.pd (L.renormLevels r.m)), cached := false }
+
+@[csimp] theorem renormL_eq_fast : @renormL = @renormLFast := by
+  funext L r
+  simp only [renormL, renormLFast, lookupFn_tab, foldTab_eq]
+
+def degradedL (L : Leaves) (m : Nat) (o : Region) : List Nat :=
+  (L.unionFiner m o.m).flatMap (fun d => (o.pd d).map (fun p => L.degrade p d m))
+
+def unionRawL (L : Leaves) (r o : Region) : Region :=
+  let sh := L.unionShared r.m o.m
+  let pd1 : Nat → List Nat := fun d => if sh.contains d then dedup (r.pd d ++ o.pd d) else r.pd d
+  let pd2 := if L.finer r.m o.m then setLevel pd1 r.m (dedup (pd1 r.m ++ degradedL L r.m o)) else pd1
+  { r with pd := pd2, cached := if sh.isEmpty then r.cached else false }
+
+def combineWithL (L : Leaves) (ok : Nat → Nat → Bool) (f : List Nat → List Nat → List Nat) (r o : Region) :
+    Except Err Region :=
+  if !ok r.m o.m then .error .assertion else
+    let r1 := demoteAllL L r
+    let o1 := demoteAllL L o
+    .ok (renormL L { r1 with pd := setLevel r1.pd r.m (f (r1.pd r.m) (o1.pd o1.m)) })
+
+def areaL (L : Leaves) (r : Region) : Nat :=
+  ((L.areaLevels r.m).map (fun d => (r.pd d).length * 4 ^ (r.m - d))).sum
+
+def stepL (L : Leaves) (r : Region) : Op → Except Err (Region × Obs)
+  | .addRaw ps d => if 1 ≤ d ∧ d ≤ r.m then .ok (addPixels r ps d, .none) else .error .badDepth
+  | .add ps d => if 1 ≤ d ∧ d ≤ r.m then .ok (renormL L (addPixels r ps d), .none) else .error .badDepth
+  | .renorm => .ok (renormL L r, .none)
+  | .union o b => .ok (if b then renormL L (unionRawL L r o) else unionRawL L r o, .none)
+  | .without o => (combineWithL L L.sameDepthW diffL r o).map (·, .none)
+  | .intersect o => (combineWithL L L.sameDepthI interL r o).map (·, .none)
+  | .symdiff o => (combineWithL L L.sameDepthX symL r o).map (·, .none)
+  | .getDemoted => let r1 := demoteAllL L r; .ok (r1, .pixels (r1.pd r1.m))
+  | .area => .ok (r, .area (areaL L r))
+  | .within q => let r1 := demoteAllL L r; .ok (r1, .answer ((r1.pd r1.m).contains q))
+  | .saveLoad => .ok (r, .none)
+
+def operandAfterL (L : Leaves) : Op → Option Region
+  | .union o _ => some o
+  | .without o | .intersect o | .symdiff o => some (demoteAllL L o)
+  | _ => none
+
 /-! ### sessions: several region objects, `.mim` files
 
   `save f` writes the current region to file `f`; `load f` makes a **fresh** region from what was
@@ -328,6 +435,31 @@ def sessStep (s : Session) : SessOp → Except SessErr (Session × Obs)
   | .withoutFile f => withFile s f .without
   | .intersectFile f => withFile s f .intersect
   | .symdiffFile f => withFile s f .symdiff
+
+/-- `sessStep` with the single-object step as a parameter (the driver runs it with the regenerated `stepGen`) -/
+def sessStepWith (stp : Region → Op → Except Err (Region × Obs)) (s : Session) : SessOp → Except SessErr (Session × Obs)
+  | .save f => .ok ({ s with files := fun g => if g = f then some s.cur else s.files g }, .none)
+  | .load f =>
+    match s.files f with
+    | some r => .ok ({ s with cur := r }, .none)
+    | none => .error .noFile
+  | op =>
+    let run1 (o : Op) : Except SessErr (Session × Obs) :=
+      match stp s.cur o with
+      | .ok (r, ob) => .ok ({ s with cur := r }, ob)
+      | .error e => .error (.op e)
+    let fromFile (f : Nat) (mk : Region → Op) : Except SessErr (Session × Obs) :=
+      match s.files f with
+      | some o => run1 (mk o)
+      | none => .error .noFile
+    match op with
+    | .op o => run1 o
+    | .unionFile f b => fromFile f (fun o => .union o b)
+    | .withoutFile f => fromFile f .without
+    | .intersectFile f => fromFile f .intersect
+    | .symdiffFile f => fromFile f .symdiff
+    | .save _ => .error .noFile
+    | .load _ => .error .noFile
 
 def sessRun (s : Session) : List SessOp → Session × List (Except SessErr Obs)
   | [] => (s, [])
